@@ -1,9 +1,9 @@
 package props
 
 import (
-	"reflect"
 	"encoding/json"
 	"fmt"
+	"reflect"
 	"strings"
 
 	"verif/harness/core"
@@ -143,9 +143,216 @@ func c18accessors(c *core.Ctx) {
 	}
 }
 
+type c18KRow struct {
+	Id string
+	N  int
+}
+type c18KRow2 struct {
+	A string
+	B int
+	D string
+}
+type c18KRoot struct {
+	L  []*c18KRow
+	M2 []*c18KRow2
+}
+
+// an edit addressed at a list entry whose document names another key: whatever the library answers, afterwards
+// no two entries share a key and every entry is found under the key its key leaf holds
+func c18keyRewrite(c *core.Ctx) {
+	y := `module kr { namespace "urn:kr"; prefix kr; revision 2020-01-01;
+  list l { key id; leaf id { type string; } leaf n { type int32; } }
+  list m2 { key "a b"; leaf a { type string; } leaf b { type int32; } leaf d { type string; } } }`
+	m, err := parser.LoadModuleFromString(nil, y)
+	if err != nil {
+		c.Violation(core.Replay{Kind: "harness", Summary: "c18keyRewrite module: " + err.Error(), NoInputFound: true})
+		return
+	}
+	before := `{"l":[{"id":"a","n":1},{"id":"b","n":2}],"m2":[{"a":"east","b":1,"d":"e1"},{"a":"west","b":2,"d":"w2"}]}`
+	type tcase struct{ at, op, doc string }
+	var cases []tcase
+	for _, op := range []string{"upsert", "update", "replace", "insert"} {
+		for _, d := range []string{`{"id":"b"}`, `{"id":"b","n":9}`, `{"id":"zz","n":9}`, `{"id":"a","n":9}`, `{"n":9}`} {
+			cases = append(cases, tcase{"l=a", op, d})
+		}
+		for _, d := range []string{`{"b":2}`, `{"a":"west","b":2,"d":"x"}`, `{"a":"west"}`, `{"a":"east","b":1,"d":"x"}`} {
+			cases = append(cases, tcase{"m2=east,1", op, d})
+		}
+	}
+	backends := []string{"node-map", "reflect-map", "node-struct", "reflect-struct"}
+	// the same request on the model (Model/EntryKey.editEntry): refused exactly when a key leaf of the document
+	// differs from the key addressed, otherwise the merge
+	bodyToks := func(fields []string, js string) string {
+		var v map[string]interface{}
+		json.Unmarshal([]byte(js), &v)
+		t := []string{fmt.Sprint(len(fields))}
+		for _, f := range fields {
+			if x, has := v[f]; has {
+				t = append(t, "l", "h"+core.Hex(fmt.Sprint(x)))
+			} else {
+				t = append(t, "l", "~")
+			}
+		}
+		return strings.Join(t, " ")
+	}
+	type krPend struct {
+		be     string
+		tc     tcase
+		status string
+		entry  string
+		fields []string
+	}
+	_ = krPend{}
+	var lines []string
+	var pends []krPend
+	for _, be := range backends {
+		for _, tc := range cases {
+			if be == "node-map" || be == "reflect-map" {
+				if strings.HasPrefix(tc.at, "m2") {
+					continue // compound keys on map-backed lists: known finding map-list-compound-key
+				}
+			}
+			var after, entryAfter string
+			var status string
+			var problems []string
+			e := safeDo(func() error {
+				var root node.Node
+				switch be {
+				case "node-map":
+					root = &nodeutil.Node{Object: map[string]interface{}{}}
+				case "reflect-map":
+					root = nodeutil.ReflectChild(map[string]interface{}{})
+				case "node-struct":
+					root = &nodeutil.Node{Object: &c18KRoot{}}
+				case "reflect-struct":
+					root = nodeutil.ReflectChild(&c18KRoot{})
+				}
+				b := node.NewBrowser(m, root)
+				init := before
+				if strings.HasSuffix(be, "-map") {
+					init = `{"l":[{"id":"a","n":1},{"id":"b","n":2}]}`
+				}
+				src, err := nodeutil.ReadJSON(init)
+				if err != nil {
+					return err
+				}
+				if err := b.Root().UpsertFrom(src); err != nil {
+					return fmt.Errorf("load: %v", err)
+				}
+				sel, err := b.Root().Find(tc.at)
+				if err != nil || sel == nil {
+					return fmt.Errorf("find %s: %v", tc.at, err)
+				}
+				doc, err := nodeutil.ReadJSON(tc.doc)
+				if err != nil {
+					return err
+				}
+				switch tc.op {
+				case "upsert":
+					err = sel.UpsertFrom(doc)
+				case "update":
+					err = sel.UpdateFrom(doc)
+				case "replace":
+					err = sel.ReplaceFrom(doc)
+				case "insert":
+					err = sel.InsertFrom(doc)
+				}
+				status = "ok"
+				if err != nil {
+					status = "error " + short(err.Error())
+				}
+				after, err = nodeutil.WriteJSON(b.Root())
+				if err != nil {
+					return fmt.Errorf("read after the edit: %v", err)
+				}
+				if es, err := b.Root().Find(tc.at); err == nil && es != nil {
+					entryAfter, _ = nodeutil.WriteJSON(es)
+				}
+				var v map[string][]map[string]interface{}
+				if err := json.Unmarshal([]byte(after), &v); err != nil {
+					return fmt.Errorf("read after the edit: %v", err)
+				}
+				for _, ln := range []string{"l", "m2"} {
+					seen := map[string]bool{}
+					for _, row := range v[ln] {
+						var k string
+						if ln == "l" {
+							k = fmt.Sprint(row["id"])
+						} else {
+							k = fmt.Sprint(row["a"]) + "," + fmt.Sprint(row["b"])
+						}
+						if seen[k] {
+							problems = append(problems, fmt.Sprintf("two entries of %s have the key %s", ln, k))
+						}
+						seen[k] = true
+						fs, err := b.Root().Find(ln + "=" + k)
+						if err != nil || fs == nil {
+							problems = append(problems, fmt.Sprintf("the entry that shows the key %s is not found by Find(%s=%s) (%v)", k, ln, k, err))
+							continue
+						}
+						one, err := nodeutil.WriteJSON(fs)
+						if err != nil {
+							problems = append(problems, fmt.Sprintf("Find(%s=%s) cannot be read: %v", ln, k, err))
+							continue
+						}
+						var got map[string]interface{}
+						json.Unmarshal([]byte(one), &got)
+						for f, want := range row {
+							if fmt.Sprint(got[f]) != fmt.Sprint(want) {
+								problems = append(problems, fmt.Sprintf("Find(%s=%s) shows %s, the list shows %v under that key", ln, k, short(one), row))
+								break
+							}
+						}
+					}
+				}
+				return nil
+			})
+			if e != nil {
+				problems = append(problems, e.Error())
+			}
+			if (tc.op == "upsert" || tc.op == "update") && e == nil {
+				fields, key, was := []string{"id", "n"}, "1 h"+core.Hex("a"), `{"id":"a","n":1}`
+				if strings.HasPrefix(tc.at, "m2") {
+					fields, key, was = []string{"a", "b", "d"}, "2 h"+core.Hex("east")+" h"+core.Hex("1"), `{"a":"east","b":1,"d":"e1"}`
+				}
+				sch := fmt.Sprint(len(fields)) + strings.Repeat(" L ~", len(fields))
+				lines = append(lines, "data entry ; "+sch+" ; "+key+" ; "+bodyToks(fields, tc.doc)+" ; "+bodyToks(fields, was))
+				pends = append(pends, krPend{be, tc, status, entryAfter, fields})
+			}
+			c.Evaluations++
+			c.Count("key_rewrite", be+" "+tc.op)
+			c.Distinct("keyrw " + be + tc.op + tc.at + tc.doc)
+			if len(problems) > 0 {
+				c.Violation(core.Replay{Kind: "property-failure", Class: "key-rewrite-" + be, Summary: fmt.Sprintf("%s: %s of %s at %s (%s): %s; content %s", be, tc.op, tc.doc, tc.at, status, strings.Join(problems, "; "), short(after)),
+					Input: map[string]interface{}{"yang": y, "before": before, "backend": be, "at": tc.at, "op": tc.op, "doc": tc.doc}, Impl: after, Spec: "keys unique, every entry found under the key it shows"})
+			}
+		}
+	}
+	outs, err := core.RunDriver(lines)
+	if err != nil {
+		c.ProofBroken = append(c.ProofBroken, err.Error())
+		return
+	}
+	for i, o := range outs {
+		p := pends[i]
+		impl := "err conflict"
+		if p.status == "ok" {
+			impl = "ok " + bodyToks(p.fields, p.entry)
+		} else if !strings.Contains(p.status, "conflict") {
+			impl = p.status
+		}
+		c.Count("key_rewrite_model", strings.SplitN(o, " ", 3)[0]+" "+strings.SplitN(o+" -", " ", 3)[1][:1])
+		if impl != o {
+			c.Violation(core.Replay{Kind: "correspondence", Class: "key-rewrite-model-" + p.be, Summary: fmt.Sprintf("%s: %s of %s at %s: library %s (entry then %s), model (editEntry) %s", p.be, p.tc.op, p.tc.doc, p.tc.at, impl, short(p.entry), o),
+				Input: map[string]interface{}{"yang": y, "before": before, "backend": p.be, "at": p.tc.at, "op": p.tc.op, "doc": p.tc.doc}, Impl: impl, Spec: o})
+		}
+	}
+}
+
 func C18(c *core.Ctx) {
 	c18accessors(c)
-	c.Rule = "operation sequences of length 1–12 (upsert / insert / update documents, delete of a container, of a list entry (present or absent key), of a whole list, replace of a container or list) at a random location (root, container, list entry) of generated trees, on the reference store and on reflection over maps; after every operation the status, the complete store content re-read independently of the library, Find of the deleted key and of every remaining entry are compared with the Lean model. non-trivial = sequence with ≥1 delete/replace that hits existing data; distinct by (schema, initial tree, sequence, target)"
+	c18keyRewrite(c)
+	c.Rule = "operation sequences of length 1–12 (upsert / insert / update documents, delete of a container, of a list entry (present or absent key), of a whole list, replace of a container or list) at a random location (root, container, list entry) of generated trees, on the reference store and on reflection over maps; after every operation the status, the complete store content re-read independently of the library, Find of the deleted key and of every remaining entry are compared with the Lean model; directed: edits addressed at a list entry (upsert, update, replace, insert) whose document names the same, another existing or a new key or none, on map-, slice- and struct-backed nodes: keys stay unique, every entry is found under the key it shows, and the verdict and resulting entry are those of Model/EntryKey.editEntry. non-trivial = sequence with ≥1 delete/replace that hits existing data; distinct by (schema, initial tree, sequence, target)"
 	c.Assumptions = append(c.Assumptions,
 		"replace of a single list entry (ReplaceFrom on an entry) is exercised only through delete + upsert sequences, the model has no separate operation for it",
 		"map-backed targets are compared with list entry order ignored")
@@ -229,8 +436,8 @@ func C18(c *core.Ctx) {
 			nops := 1 + r.Intn(12)
 			var ops []c18op
 			var hist []string
-			keptEver := false     // a delete through a selection obtained before the preceding delete, on a reflection backend (known finding)
-			compoundEver := false // once a compound-key list was held in a Go map the known defect may have struck: later steps of the history inherit it
+			keptEver := false          // a delete through a selection obtained before the preceding delete, on a reflection backend (known finding)
+			compoundEver := false      // once a compound-key list was held in a Go map the known defect may have struck: later steps of the history inherit it
 			cur := gen.Clone(loc.body) // harness-side view, refreshed from the store after each op
 			var pending *c18op
 			for k := 0; k < nops; k++ {
@@ -242,85 +449,85 @@ func C18(c *core.Ctx) {
 					goto chosen
 				}
 				{
-				var structural []int
-				for i, s := range loc.kids {
-					if s.Kind != "leaf" {
-						structural = append(structural, i)
+					var structural []int
+					for i, s := range loc.kids {
+						if s.Kind != "leaf" {
+							structural = append(structural, i)
+						}
 					}
-				}
-				choice := r.Intn(100)
-				switch {
-				case choice < 30 || len(structural) == 0:
-					doc := gen.GenBody(r, loc.kids, 20+r.Intn(60), o)
-					gen.Overlap(r, loc.kids, doc, cur)
-					if loc.kind == "entry" {
-						keepEntryKeys(dc.kids, loc, doc)
-					}
-					op = c18op{kind: core.Pick(r, []string{"U", "U", "I", "P"}), doc: doc}
-					if op.kind == "U" && r.Chance(25) {
-						// one payload naming a key twice: the second mention merges into the entry the first one made
-						for i, s := range loc.kids {
-							if s.Kind == "list" && len(doc[i].Rows) > 0 {
-								row := core.Pick(r, doc[i].Rows)
-								nb := gen.GenBody(r, s.Kids, 70, o)
-								for j := 0; j < s.NKeys; j++ {
-									kv := row.Key[j]
-									nb[j] = &gen.DNode{Leaf: &kv}
+					choice := r.Intn(100)
+					switch {
+					case choice < 30 || len(structural) == 0:
+						doc := gen.GenBody(r, loc.kids, 20+r.Intn(60), o)
+						gen.Overlap(r, loc.kids, doc, cur)
+						if loc.kind == "entry" {
+							keepEntryKeys(dc.kids, loc, doc)
+						}
+						op = c18op{kind: core.Pick(r, []string{"U", "U", "I", "P"}), doc: doc}
+						if op.kind == "U" && r.Chance(25) {
+							// one payload naming a key twice: the second mention merges into the entry the first one made
+							for i, s := range loc.kids {
+								if s.Kind == "list" && len(doc[i].Rows) > 0 {
+									row := core.Pick(r, doc[i].Rows)
+									nb := gen.GenBody(r, s.Kids, 70, o)
+									for j := 0; j < s.NKeys; j++ {
+										kv := row.Key[j]
+										nb[j] = &gen.DNode{Leaf: &kv}
+									}
+									doc[i].Rows = append(doc[i].Rows, &gen.DRow{Key: append([]string{}, row.Key...), Kids: nb})
+									c.Count("payload", "key named twice")
+									break
 								}
-								doc[i].Rows = append(doc[i].Rows, &gen.DRow{Key: append([]string{}, row.Key...), Kids: nb})
-								c.Count("payload", "key named twice")
-								break
 							}
 						}
-					}
-				case choice < 50:
-					op = c18op{kind: "DC", i: core.Pick(r, structural)}
-				case choice < 80:
-					var lists []int
-					for _, i := range structural {
-						if loc.kids[i].Kind == "list" {
-							lists = append(lists, i)
-						}
-					}
-					if len(lists) == 0 {
+					case choice < 50:
 						op = c18op{kind: "DC", i: core.Pick(r, structural)}
-						break
-					}
-					i := core.Pick(r, lists)
-					var key []string
-					if len(cur[i].Rows) > 0 && r.Chance(80) {
-						key = core.Pick(r, cur[i].Rows).Key
-					} else {
-						for j := 0; j < loc.kids[i].NKeys; j++ {
-							if loc.kids[i].Kids[j].Type == "int32" {
-								key = append(key, fmt.Sprint(90+r.Intn(5)))
-							} else {
-								key = append(key, "nokey")
+					case choice < 80:
+						var lists []int
+						for _, i := range structural {
+							if loc.kids[i].Kind == "list" {
+								lists = append(lists, i)
 							}
 						}
-					}
-					op = c18op{kind: "DR", i: i, key: key}
-					if len(cur[i].Rows) > 0 && r.Chance(35) {
-						// replace an existing entry by a fresh one with the same key
-						row := core.Pick(r, cur[i].Rows)
-						nb := gen.GenBody(r, loc.kids[i].Kids, 60, o)
-						for j := 0; j < loc.kids[i].NKeys; j++ {
-							kv := row.Key[j]
-							nb[j] = &gen.DNode{Leaf: &kv}
+						if len(lists) == 0 {
+							op = c18op{kind: "DC", i: core.Pick(r, structural)}
+							break
 						}
-						op = c18op{kind: "RR", i: i, key: row.Key, doc: nb}
-					}
-				default:
-					i := core.Pick(r, structural)
-					d := gen.GenData(r, loc.kids[i], 100, o)
-					if loc.kids[i].Kind == "cont" {
-						d.Present = true
-						if d.Kids == nil {
-							d.Kids = gen.GenBody(r, loc.kids[i].Kids, 60, o)
+						i := core.Pick(r, lists)
+						var key []string
+						if len(cur[i].Rows) > 0 && r.Chance(80) {
+							key = core.Pick(r, cur[i].Rows).Key
+						} else {
+							for j := 0; j < loc.kids[i].NKeys; j++ {
+								if loc.kids[i].Kids[j].Type == "int32" {
+									key = append(key, fmt.Sprint(90+r.Intn(5)))
+								} else {
+									key = append(key, "nokey")
+								}
+							}
 						}
+						op = c18op{kind: "DR", i: i, key: key}
+						if len(cur[i].Rows) > 0 && r.Chance(35) {
+							// replace an existing entry by a fresh one with the same key
+							row := core.Pick(r, cur[i].Rows)
+							nb := gen.GenBody(r, loc.kids[i].Kids, 60, o)
+							for j := 0; j < loc.kids[i].NKeys; j++ {
+								kv := row.Key[j]
+								nb[j] = &gen.DNode{Leaf: &kv}
+							}
+							op = c18op{kind: "RR", i: i, key: row.Key, doc: nb}
+						}
+					default:
+						i := core.Pick(r, structural)
+						d := gen.GenData(r, loc.kids[i], 100, o)
+						if loc.kids[i].Kind == "cont" {
+							d.Present = true
+							if d.Kids == nil {
+								d.Kids = gen.GenBody(r, loc.kids[i].Kids, 60, o)
+							}
+						}
+						op = c18op{kind: "R", i: i, data: d}
 					}
-					op = c18op{kind: "R", i: i, data: d}
-				}
 				}
 			chosen:
 				if op.kind == "DR" && op.sel == nil && len(cur[op.i].Rows) >= 2 && r.Chance(25) {
